@@ -58,6 +58,7 @@ def run(kind, sc, desc):
     elif exp[0] == "ok":
         probs += S.compare_result(sc, impl, exp)          # includes dnspython validation of every signature and the signed fields
         probs += S.token_octets_problems(sc, r)
+        probs += S.written_skr_problems(sc, impl, exp)      # the bundle as published: what the tool's writer makes of it, read with ElementTree
         n_sigs += sum(len(b.signatures) for b in impl[1])
     cases.append(r["coq"])
     meta.append({"kind": kind, "desc": dict(desc, impl="ok" if impl[0] == "ok" else impl[2], expected=exp[0] if exp[0] == "ok" else exp[1],
@@ -128,6 +129,16 @@ for alg in ((8, 13) if TIER == "quick" else (8, 10, 13, 14)):
     sc = {"modules": [[{"id": 0, "objs": S.pair(k1["id"], k1) + S.pair(k2["id"], k2)}]], "ksks": {"k1": ceremony.ksk_def(k1), "k2": ceremony.ksk_def(k2)},
           "schema": schema, "request": rq}
     run("nine-bundles-revoke-schema", sc, {"alg": alg})
+# two ZSKs of one bundle whose key tags collide (a roll between them): both are published, and the signature is over both
+_ca, _cb = P.ec_tag_collision(13)
+ZTW = [ksrxml.mk_key(_ca, alg=13, ident="ZSK-twin-a"), ksrxml.mk_key(_cb, alg=13, ident="ZSK-twin-b")]
+P.save()
+for hh in (None, True):
+    k1 = ksk_for(13, idx=0)
+    rq = skrgen.honest_request(f"twins-{hh}", NOW, 2, [ZTW, ZTW + [zsk_for(13, idx=0)]], ksrxml.default_zsk_policy(), sign=True)
+    sc = {"modules": [[{"id": 0, "objs": S.pair(k1["id"], k1)}]], "ksks": {"k1": ceremony.ksk_def(k1, hash_using_hsm=hh)},
+          "schema": {i: {"publish": ["k1"], "sign": ["k1"], "revoke": []} for i in (1, 2)}, "request": rq}
+    run("colliding-key-tags", sc, {"tag": ZTW[0]["tag"]})
 # the configured TTL is what is signed, zero included
 for t_ in (0, 1):
     k1 = ksk_for(8, idx=0)
